@@ -347,7 +347,23 @@ func c09Check(ctx *vfCtx, c c09Case) {
 func c09GenEvent(t *rapid.T, version string, r c07Room, b c07Built, label string) vfBytes {
 	sender := rapid.SampledFrom(c07Users).Draw(t, label+"sender")
 	e := raEv{Sender: sender, Content: jv{K: 'o'}, Room: b.RoomID, Depth: 50, TS: 5000}
-	switch rapid.IntRange(0, 9).Draw(t, label+"kind") {
+	switch rapid.IntRange(0, 12).Draw(t, label+"kind") {
+	case 10:
+		// event types with rules of their own in some room versions: what they are judged by must be
+		// what StateNeededForAuth names for them
+		dom := sender[strings.IndexByte(sender, ':')+1:]
+		if rapid.IntRange(0, 3).Draw(t, label+"aliasOtherDomain") == 0 {
+			dom = "elsewhere.example"
+		}
+		e.Type, e.StateKey, e.Content = "m.room.aliases", raSK(dom), jobj("aliases", jarr(jstr("#a:"+dom)))
+	case 11:
+		e.Type, e.Content = "m.room.redaction", jobj("redacts", jstr(evFakeID(t, version, label+"redacts")))
+		if !vtraits[version].Creators && vtraits[version].Redaction != "v11" {
+			e.Redacts = evFakeID(t, version, label+"redacts2")
+		}
+	case 12:
+		e.Type, e.StateKey = "m.room.third_party_invite", raSK("tok2")
+		e.Content = jobj("display_name", jstr("y"), "key_validity_url", jstr("https://id.example/v"), "public_key", jstr(c07PubB64("idkey1")))
 	case 0, 1, 2, 3:
 		e.Type, e.StateKey = "m.room.member", raSK(sender)
 		e.Content = jobj("membership", jstr("join"))
